@@ -344,17 +344,8 @@ def run_xsys(cid, case, tmp, h):
             impl_r = exc_name(e)
         errs = []
         letterless = any(not h['has_letter'](h['want_str'](a['atomname'], 5, 'right')) for a in atoms)
-        # read_gro counts ALL points of the first atom line to decide on velocities (candidate finding F-C16-4):
-        # exactly three in the names (none written) -> it expects velocity columns; any (velocities written) -> drops them
-        npts = 0 if not atoms else (h['want_str'](atoms[0]['resname'], 5).count('.') +
-                                    h['want_str'](atoms[0]['atomname'], 5, 'right').count('.'))
-        vel_lost = bool(has_vel) and npts != 0
-        if vel_lost:
-            count('x_gro_velocities_lost_point_in_first_name')
-        if not atoms or letterless or (not has_vel and npts == 3):
-            if atoms and not letterless:
-                count('x_gro_first_line_three_points')
-            # outside the domain of the property (no atom line to detect the format on / F-C16-2 / F-C16-4)
+        if not atoms or letterless:
+            pass    # outside the domain of the property (no atom line to detect the format on / F-C16-2)
         elif exc is not None:
             errs.append('read_gro raised %s on the file written by write_gro' % type(exc).__name__)
         elif len(mol) != len(atoms):
@@ -367,9 +358,7 @@ def run_xsys(cid, case, tmp, h):
                 w = [want_fixed(a[c], 3, width) for c in 'xyz']
                 if g != w:
                     errs.append('coordinates read back as %r, expected %r' % (g, w))
-                if has_vel and vel_lost:
-                    pass
-                elif has_vel:
+                if has_vel:
                     if 'velocity' not in node:
                         errs.append('velocities written but not read back')
                     elif width >= 6:
